@@ -160,11 +160,17 @@ def correspondence(ctx):
             cons = []
             texts = []
             weak = set()
+            weak_src = set()
             tries = 0
             while len(cons) < k and tries < 40:
                 tries += 1
                 try:
                     s, v = S.gen_valid(gname, rng)
+                    if rng.random() < 0.2:
+                        # a character of a wide alphabet inserted (what a loosened validity pattern may newly admit);
+                        # used only when the constructor accepts the text
+                        j = rng.randint(0, len(s))
+                        s = s[:j] + rng.choice(list(":_~+-.^") + ["0:", "1:"]) + s[j:]
                     v = rc.version_class(s)
                 except Exception:  # noqa: BLE001
                     continue
@@ -178,6 +184,7 @@ def correspondence(ctx):
                         ctx.stream(stream)["version_text_not_roundtripping"] = \
                             ctx.stream(stream).get("version_text_not_roundtripping", 0) + 1
                         weak.add(str(v))
+                        weak_src.add(s)
                 except Exception:  # noqa: BLE001
                     continue
                 cons.append(VersionConstraint(comparator=rng.choice([">=", "<=", "!=", "<", ">", "="]), version=v))
@@ -220,7 +227,9 @@ def correspondence(ctx):
             if why:
                 region = None
                 if weak and rc.scheme == "rpm":
-                    region = "rpm-str-roundtrip"
+                    from harness.props.c11 import k05_text
+                    if all(k05_text(t) for t in weak_src):
+                        region = "rpm-str-roundtrip"
                 ctx.disagree(stream, text, why, "round trip", True,
                              {"range_class": rc.__name__, "text": text, "clause": why, "versions_whose_text_does_not_roundtrip": sorted(weak),
                               "python": "from univers.version_range import VersionRange as R; r=R.from_string(%r); print(str(r))" % text},
